@@ -88,18 +88,22 @@ Definition overwrite_refused (ins : list path) (outs : list outfile) : list path
   map o_path (filter (fun o => mem (canon (o_path o)) (map canon ins)) outs).
 
 (* the outputFileMap loop: (kept files in order, paths reported as
-   "Two output files share the same path but have different contents") *)
-Fixpoint dedupe (seen : fmap outfile) (outs : list outfile) : list outfile * list path :=
+   "Two output files share the same path but have different contents").
+   [prev] are the files kept so far, in order: outputFileMap[key] is the first
+   of them with that canonical path, exactAbsPaths is the set of their paths.
+   As of /repo commit 11ec04b an identical mergeable file is only filtered out
+   when a kept file has exactly its path (a case variant is kept as well). *)
+Fixpoint dedupe (prev : list outfile) (outs : list outfile) : list outfile * list path :=
   match outs with
   | [] => ([], [])
   | o :: r =>
-    let k := canon (o_path o) in
-    match lookup seen k with
-    | None => let '(kept, errs) := dedupe (upd seen k o) r in (o :: kept, errs)
+    match find (fun f => path_eqb (canon (o_path f)) (canon (o_path o))) prev with
+    | None => let '(kept, errs) := dedupe (prev ++ [o]) r in (o :: kept, errs)
     | Some e =>
       if o_merge e && o_merge o && content_eqb (o_data e) (o_data o)
-      then dedupe seen r
-      else let '(kept, errs) := dedupe seen r in (kept, o_path o :: errs)
+      then if mem (o_path o) (map o_path prev) then dedupe prev r
+           else let '(kept, errs) := dedupe (prev ++ [o]) r in (o :: kept, errs)
+      else let '(kept, errs) := dedupe prev r in (kept, o_path o :: errs)
     end
   end.
 
